@@ -4,6 +4,7 @@ import (
 	"flag"
 	"fmt"
 	"os"
+	"runtime/pprof"
 	"strings"
 	"time"
 )
@@ -12,6 +13,22 @@ func main() {
 	if len(os.Args) < 2 {
 		fmt.Fprintln(os.Stderr, "usage: gvc <verify|check> ...")
 		os.Exit(2)
+	}
+	if pf := os.Getenv("GVC_PROF"); pf != "" {
+		f, err := os.Create(pf)
+		if err == nil {
+			pprof.StartCPUProfile(f)
+			defer pprof.StopCPUProfile()
+		}
+	}
+	if mf := os.Getenv("GVC_MEMPROF"); mf != "" {
+		defer func() {
+			f, err := os.Create(mf)
+			if err == nil {
+				pprof.WriteHeapProfile(f)
+				f.Close()
+			}
+		}()
 	}
 	switch os.Args[1] {
 	case "verify":
